@@ -74,6 +74,9 @@ class TComp(fm.TimeComponent):
             self.inputs.add(name=f"i{i}", time=self.time, grid=fm.NoGrid(), units=None)
         for o in range(self.spec["nout"]):
             self.outputs.add(name=f"o{o}", time=self.time, grid=fm.NoGrid(), units="")
+        for o in range(self.spec["nout"], self.spec["nout"] + self.spec.get("nstatic", 0)):
+            # static outputs: published once at connect, indices nout .. nout+nstatic-1
+            self.outputs.add(name=f"o{o}", static=True, time=None, grid=fm.NoGrid(), units="")
         pull = [f"i{i}" for i, _ in enumerate(self.spec["inputs"])] if self.spec.get("initpull") else []
         self.create_connector(pull_data=pull)
 
@@ -83,7 +86,8 @@ class TComp(fm.TimeComponent):
 
     def _connect(self, start_time):
         self.calls.append("C")
-        self.try_connect(start_time, push_data={f"o{o}": self.value() + 0.0 * o for o in range(self.spec["nout"])})
+        nall = self.spec["nout"] + self.spec.get("nstatic", 0)
+        self.try_connect(start_time, push_data={f"o{o}": self.value() + 0.0 * o for o in range(nall)})
 
     def _validate(self):
         self.calls.append("V")
@@ -194,7 +198,7 @@ def build(case):
                 _wrap_finalize(ad, fin_count, (idx, i, k))
     for idx, spec in enumerate(comps_spec):
         if spec["kind"] == "T":
-            for o in range(spec["nout"]):
+            for o in range(spec["nout"] + spec.get("nstatic", 0)):
                 _wrap_output(comps[idx].outputs[f"o{o}"], events, idx, o)
     return composition, comps, events, adapters, fin_count, t0, n_shared[0]
 
